@@ -305,11 +305,9 @@ def _legal(s):
     return all(c not in "/=\x00" for c in s)
 
 
-def h_hive_str(a: str, b: str) -> bool:
-    """
-    pre: len(a) <= SLEN and len(b) <= SLEN and a != b and _legal(a) and _legal(b) and len(a) >= 1 and len(b) >= 1
-    post: __return__
-    """
+def _h_hive_str(a: str, b: str) -> bool:
+    # (body of the harness below; kept free of a contract so that other harnesses can call it: CrossHair
+    # enforces the contract of a contracted callee and drops the path when it fails)
     # two rows groups with string keys a, b: distinct directories, and the value read back from each path is the key
     saved = util.np
     util.np = _NPu
@@ -327,6 +325,14 @@ def h_hive_str(a: str, b: str) -> bool:
         util.np = saved
 
 
+def h_hive_str(a: str, b: str) -> bool:
+    """
+    pre: len(a) <= SLEN and len(b) <= SLEN and a != b and _legal(a) and _legal(b) and len(a) >= 1 and len(b) >= 1
+    post: __return__
+    """
+    return _h_hive_str(a, b)
+
+
 def replay_h_hive_str(a, b):
     return _replay_keys([a, b], "hive")
 
@@ -338,7 +344,7 @@ def h_hive_str_rest(a: str, b: str) -> bool:
     post: __return__
     """
     # outside the backslash finding (join_path rewrites backslashes to '/')
-    return h_hive_str(a, b)
+    return _h_hive_str(a, b)
 
 
 def replay_h_hive_str_rest(a, b):
